@@ -40,14 +40,15 @@ type c18Config struct {
 	Loopback    bool
 	MDNS        bool
 	Mux         string
+	MuxIP       string // listen address of the UDP mux ("" = 10.0.0.5)
 	StunMode    string
 	ViaConfig   bool // agent built from an AgentConfig struct instead of options
 	SrflxMapped int  // > 0: an address rewrite rule publishes this many external IPs as srflx candidates (no STUN)
 }
 
 func (c c18Config) String() string {
-	return fmt.Sprintf("ifaces=%+v types=%v nets=%v(set=%v) ports=%d-%d ifaceReject=%v ipReject=%v loopback=%v mdns=%v mux=%q stun=%s viaConfig=%v srflxMapped=%d",
-		c.Ifaces, c.Types, c.NetTypes, c.NetTypesSet, c.PortMin, c.PortMax, c.IfaceReject, c.IPReject, c.Loopback, c.MDNS, c.Mux, c.StunMode, c.ViaConfig, c.SrflxMapped)
+	return fmt.Sprintf("ifaces=%+v types=%v nets=%v(set=%v) ports=%d-%d ifaceReject=%v ipReject=%v loopback=%v mdns=%v mux=%q(%s) stun=%s viaConfig=%v srflxMapped=%d",
+		c.Ifaces, c.Types, c.NetTypes, c.NetTypesSet, c.PortMin, c.PortMax, c.IfaceReject, c.IPReject, c.Loopback, c.MDNS, c.Mux, c.MuxIP, c.StunMode, c.ViaConfig, c.SrflxMapped)
 }
 
 func c18ConfigGen() *rapid.Generator[c18Config] {
@@ -113,6 +114,10 @@ func c18ConfigGen() *rapid.Generator[c18Config] {
 		c.Loopback = rapid.Bool().Draw(t, "includeLoopback")
 		c.MDNS = rapid.IntRange(0, 4).Draw(t, "mdns") == 0
 		c.Mux = rapid.SampledFrom([]string{"", "", "", "udp", "tcp"}).Draw(t, "mux")
+		if c.Mux == "udp" {
+			// the application's mux may listen anywhere, also on addresses that must never be published
+			c.MuxIP = rapid.SampledFrom([]string{"", "", "", "2001:db8::5", "fec0::5", "::10.0.0.5", "fe80::5", "127.0.0.1", "::1"}).Draw(t, "muxIP")
+		}
 		c.StunMode = rapid.SampledFrom([]string{"now", "now", "never"}).Draw(t, "stun")
 		c.ViaConfig = rapid.IntRange(0, 2).Draw(t, "viaAgentConfig") == 0
 		if hasType(c.Types, CandidateTypeServerReflexive) && c.Mux != "udp" {
@@ -243,7 +248,11 @@ func newC18World(cfg c18Config) (*c18World, error) {
 	muxIP := "10.0.0.5"
 	switch cfg.Mux {
 	case "udp":
-		w.base = newC12Base(muxIP + ":7000")
+		if cfg.MuxIP != "" {
+			w.base = newC12Base(net.JoinHostPort(cfg.MuxIP, "7000"))
+		} else {
+			w.base = newC12Base(muxIP + ":7000")
+		}
 		w.udpMux = &fnCountingUDPMux{inner: NewUDPMuxDefault(UDPMuxParams{Logger: lf.NewLogger("mux"), UDPConn: w.base})}
 		opts = append(opts, WithUDPMux(w.udpMux))
 	case "tcp":
